@@ -21,6 +21,11 @@ def run(c):
         'expressions are rendered into each datamodel by tools/chartgen.py; the datamodels evaluate them as the abstract integer datamodel does',
     ]
     disagreements, oracle = [], {}
+    # hypotheses of run_conforms (static_okb, run_guardb, run_completeb), evaluated by the extracted definitions on
+    # every case: where they hold the theorem says the Large model's run IS the Appendix-D run, so a deviation of the
+    # implementation there cannot be one of the recorded deviation classes
+    reach = theorem_reach(c, cases, vflags, want=('runguard',))
+    guarded = [all(r.get('run', (False,))) for r in reach]
     nontriv = set()
     hist = {'microsteps>1': 0, 'uses_history': 0, 'parallel': 0, 'multi_target': 0, 'by_origin': {}, 'by_dm': {}}
     for i, case in enumerate(cases):
@@ -49,6 +54,8 @@ def run(c):
             # a deviation from Appendix D is a *known* one only if the implementation behaves exactly as the
             # Large model (which documents the engine's selection algorithm) and the microstep is in a listed class
             cls = sc[0] if ok else sc[0] + '+model-disagrees'
+            if guarded[i]:
+                cls += '+inside-run_conforms'
             oracle.setdefault(cls, []).append(i)
     # ---- the conflict caches (LargeCache.v): contents after the run, implementation vs extracted model
     vdc = ensure_vdriver('hooks', units=['vd_run', 'vd_cache'])
@@ -74,6 +81,10 @@ def run(c):
     c.cov['samples'] = [{'origin': cases[i]['origin'], 'events': [e.decode() for e in cases[i]['events']], 'scxml': G.to_scxml(cases[i]['tree'], cases[i]['dm'])[:600],
                          'impl_trace': res['large'][i][:400]} for i in (len(cases) // 3, len(cases) - 1)]
     c.cov['model_disagreements'] = len(disagreements)
+    c.cov['run_conforms_reach'] = {'cases': len(cases), 'static_okb': sum(1 for r in reach if r.get('run', (False,))[0]),
+                                   'static+guard': sum(1 for r in reach if all(r.get('run', (False,))[:2])),
+                                   'static+guard+complete (theorem applies)': sum(1 for g in guarded if g),
+                                   'of those with >1 microstep': sum(1 for i, g in enumerate(guarded) if g and sum(1 for t in canon(res['large'][i])[0] if t == 'MS{') > 1)}
     c.cov['appendix_d_deviations'] = {k: len(v) for k, v in oracle.items()}
     # defect switches
     for idx, ch in enumerate(vflags):
